@@ -246,7 +246,7 @@ func C17pool(p *load.Program, run *report.Run) {
 		}
 	}
 	run.Count("put-sites", puts)
-	run.Floor("put-sites", 5)
+	run.Floor("put-sites", 1)
 	run.Floor("handle-reference-fields", 3)
 	run.OK("put-sites", "circuit/sync.Pool.Put", "", fmt.Sprintf("%d sites", puts))
 
